@@ -498,6 +498,33 @@ pub fn c02_h3(rep: &Reporter, args: &Args) {
         }
         // packet loss: everything the endpoint sends during a 400 ms window near the end of the download is lost (tail loss:
         // the client has nothing in flight and stays silent, so only the endpoint's own loss-detection timer can repair it)
+        // a destination that fails: it sends half of what the client expects and then resets the connection. The HTTP/3 client
+        // must see an abortive end (stream reset / connection error), never a clean end of a truncated download
+        for round in 0..args.qt(2u64, 6u64) {
+            let l = TcpListener::bind("127.0.0.1:0").await.expect("bind");
+            let dest = l.local_addr().unwrap();
+            let total = 200_000usize;
+            tokio::spawn(async move {
+                if let Ok((mut s, _)) = l.accept().await {
+                    let _ = s.write_all(&crate::common::prng::coded_stream(0xdead, round, 0, total / 2)).await;
+                    tokio::time::sleep(Duration::from_millis(30)).await;
+                    let _ = s.set_linger(Some(Duration::ZERO));
+                    drop(s);
+                }
+            });
+            let Some(mut c) = h3_connect(rep, ep.addr, "main.test").await else { continue };
+            let Ok((id, st)) = c.roundtrip("CONNECT", None, &dest.to_string(), None, &[], false, false, T).await else { rep.inconclusive("h3: request failed"); continue };
+            rep.evals(1);
+            rep.distinct(common::fnv(format!("c02h3|reset|{}", round).as_bytes()));
+            if st.status() != Some(200) { rep.inconclusive("h3: CONNECT to the resetting peer not accepted"); continue; }
+            c.run_until(Duration::from_secs(10), |c| c.streams.get(&id).map(|s| s.finished || s.reset.is_some()).unwrap_or(false) || c.closed.is_some()).await;
+            let got = c.stream(id);
+            let w = json!({"kind":"h3-tunnel-transfer","case":"destination resets mid-download","expected_by_client":total,"received":got.body.len(),"stream":got.summary(),"connection":c.closed});
+            if got.finished && got.reset.is_none() { rep.violation("l2 h3: a reset by the destination reached the HTTP/3 client as a clean end of stream (truncated download looks complete)", w); }
+            else if got.reset.is_some() || c.closed.is_some() { rep.tally("l2 h3: destination reset reached the client as an abortive end", 1); }
+            else { rep.violation("l2 h3: the client was told nothing within 10 s of the destination's reset", w); }
+            c.close().await;
+        }
         // a destination that echoes at once, except that it holds the last 30 000 bytes of a 200 000-byte stream back for 300 ms:
         // by then the client's upload is acknowledged and the client has gone silent
         let slow_tail = {
